@@ -53,6 +53,16 @@ def _is_location(v):
     return isinstance(v, ast.Name)
 
 
+class _GetattrLiteral(ast.NodeTransformer):
+    """getattr(x, 'lit') that appears only after a helper was put in with its literal argument is x.lit"""
+    def visit_Call(self, c):
+        self.generic_visit(c)
+        if isinstance(c.func, ast.Name) and c.func.id == "getattr" and len(c.args) == 2 and not c.keywords \
+                and isinstance(c.args[1], ast.Constant) and isinstance(c.args[1].value, str) and c.args[1].value.isidentifier():
+            return ast.copy_location(ast.Attribute(value=c.args[0], attr=c.args[1].value, ctx=ast.Load()), c)
+        return c
+
+
 class Expander(object):
     def __init__(self, f, g=None, subst=None, depth=8, only_locations=False, inline=None, expand_names=True):
         self.expand_names = expand_names  # False: only helper calls are inlined, local names stay
@@ -67,7 +77,7 @@ class Expander(object):
     def expand(self, expr, node=None, depth=0):
         if node is None:
             node = node_of_ast(self.g, expr)
-        return self._x(copy.deepcopy(expr), node, depth, set())
+        return _GetattrLiteral().visit(self._x(copy.deepcopy(expr), node, depth, set()))
 
     def text(self, expr, node=None):
         return unparse(self.expand(expr, node))
